@@ -369,7 +369,70 @@ func (e *Eval) symCall(name string, c *ssa.CallCommon, args []Val, cond int) (Va
 			s = e.formatted(args[1], func(v uint64) string { return strconv.FormatUint(v, int(base)) })
 		}
 		return e.concat(args[0], s), true
+	}
+	if strings.HasPrefix(name, "slices.DeleteFunc[") && len(args) == 2 && e.ForcePath &&
+		args[0].Kind == KSlice && args[0].cell != nil && args[0].cell.items != nil {
+		// in place, as the library does it: the kept elements move to the
+		// front, the vacated tail is zeroed; the predicate must be decided on
+		// every element of this path
+		var pf *ssa.Function
+		var binds []Val
+		switch {
+		case args[1].Kind == KFunc:
+			pf, binds = args[1].Fn, args[1].Binds
+		case args[1].Kind == KOpaque && args[1].Fn != nil && len(args[1].Fn.Blocks) > 0:
+			pf = args[1].Fn
+		default:
+			return Val{}, false
+		}
+		d := args[0]
+		w := d.Lo
+		for i := d.Lo; i < d.Hi; i++ {
+			e.nextBinds = binds
+			rs := e.call(pf, []Val{d.cell.items[i]})
+			if len(rs) != 1 || rs[0].Kind != KBits || len(rs[0].Bits) != 1 {
+				unsupported("predicate of %s does not return a Boolean", name)
+			}
+			here := cond
+			if here == 0 {
+				here = 1
+			}
+			yes := e.M.And(here, rs[0].Bits[0])
+			no := e.M.And(here, e.M.Not(rs[0].Bits[0]))
+			if yes != 0 && no != 0 {
+				unsupported("predicate of %s is not decided on this path", name)
+			}
+			if yes == 0 {
+				d.cell.items[w] = d.cell.items[i]
+				w++
+			}
+		}
+		for i := w; i < d.Hi; i++ {
+			d.cell.items[i] = Val{Kind: KStr}
+		}
+		return Val{Kind: KSlice, cell: d.cell, Lo: d.Lo, Hi: w}, true
+	}
+	switch name {
 	case "builtin.append":
+		if len(args) == 2 && e.ForcePath && args[1].Kind == KSlice && args[1].cell != nil && args[1].cell.items != nil {
+			// a slice of values that are not bytes, path mode: the language's
+			// semantics — in place while the capacity lasts (the capacity of a
+			// modelled backing array is its length), a fresh array otherwise
+			src := args[1].cell.items[args[1].Lo:args[1].Hi]
+			dst := args[0]
+			switch {
+			case dst.Kind == KSlice && dst.cell != nil && dst.cell.items != nil:
+				if dst.Hi+len(src) <= len(dst.cell.items) {
+					copy(dst.cell.items[dst.Hi:], src)
+					return Val{Kind: KSlice, cell: dst.cell, Lo: dst.Lo, Hi: dst.Hi + len(src)}, true
+				}
+				all := append(append([]Val(nil), dst.cell.items[dst.Lo:dst.Hi]...), src...)
+				return Val{Kind: KSlice, cell: &cell{items: all}, Lo: 0, Hi: len(all)}, true
+			case dst.Kind == KOpaque && dst.Name == "nil", dst.Kind == KSlice && dst.Hi == dst.Lo && dst.Elems == nil:
+				all := append([]Val(nil), src...)
+				return Val{Kind: KSlice, cell: &cell{items: all}, Lo: 0, Hi: len(all)}, true
+			}
+		}
 		if len(args) == 2 {
 			if _, ok := e.segsOf(args[0]); ok {
 				if _, ok := e.segsOf(args[1]); ok {
